@@ -173,7 +173,17 @@ def run(ctx: core.Run):
         ctx.recheck(["PsdVerif.Props.C14"])
 
 
-NOTES = []
+NOTES = [
+    "proved (Props/C14.lean): fresh_init, fresh_step (every operation; guard of the inserting operations; recursion limit "
+    "not hit), fresh_history, answers_fresh_history, observe_pure, observe_keeps_fresh, answers_fresh, later_answers_same; "
+    "snapshot counterexamples: legacy_append_after_read_stale, legacy_document_bbox_stale, "
+    "legacy_hidden_group_below_stale; known finding proved on a witness: detached_stale_parent_witness",
+    "Fresh speaks about containers that are in a document; for detached containers with a stale parent pointer the "
+    "statement is false (detached_stale_parent_witness, known finding C14/bbox-stale/detached-node-with-stale-parent)",
+    "stated in DESIGN, not proved: 'saved bytes unchanged by observations' (observable of DESIGN includes the bytes "
+    "save() writes; proved: nothing but caches changes, and caches stay fresh; the bytes are compared by the harness); "
+    "lazily created mask / vector mask / origination / effects views and ShapeLayer._bbox are not modelled",
+]
 
 
 def _short(v):
